@@ -23,18 +23,20 @@ ZERO = SR(Fraction(0))
 class FixedCase(Case):
     family = "fixed-variables"
 
-    def __init__(self, cid, *, mask, R=1, P=2, C=0, nested=False, sampler_map=None, batch=False, boundary="truncate_both"):
+    def __init__(self, cid, *, mask, R=1, P=2, C=0, nested=False, sampler_map=None, batch=False, boundary="truncate_both", all_fail_at=None):
         self.id = cid
         self.mask = tuple(mask)
         self.N = len(mask)
         self.free = [j for j in range(self.N) if mask[j]]
         self.fixed = [j for j in range(self.N) if not mask[j]]
         self.R, self.P, self.C, self.nested, self.batch = R, P, C, nested, batch
+        self.all_fail_at = all_fail_at   # every realization fails in this evaluation (realization_min_success = 0)
         self.family = "fixed-variables" + ("/nested" if nested else "")
         nsam = 1 if sampler_map is None else max(sampler_map) + 1
         self.cfg0 = ens.ensemble_config(
             N=self.N, R=R, P=P, C=C, mask=None if all(mask) else list(mask), lower=-10.0, upper=10.0, boundary=boundary,
             x0=[0.0] * self.N, samplers=[{"method": f"stub/s{i}"} for i in range(nsam)], sampler_map=sampler_map,
+            rmin=0 if all_fail_at is not None else 1,
             extra={"optimizer": {"method": "symstub/x"}})
         rng = np.random.default_rng([self.N, R, P, 9])
         self.design = np.round(rng.uniform(-1, 1, (R, P, self.N)) * 64) / 64
@@ -44,7 +46,7 @@ class FixedCase(Case):
         self.script = [(0, True, False), (0, False, True), (1, True, True)] if not batch else [("B", True, False), (1, True, False)]
 
     def describe(self):
-        return f"mask={self.mask} R={self.R} P={self.P} C={self.C} nested={self.nested} batch={self.batch} script={self.script}"
+        return f"mask={self.mask} R={self.R} P={self.P} C={self.C} nested={self.nested} batch={self.batch} script={self.script} all_realizations_fail_at={self.all_fail_at}"
 
     def inputs(self, env):
         x0 = np.array([SR(Fraction(0))] * self.N, dtype=object)
@@ -77,13 +79,14 @@ class FixedCase(Case):
         log = {"calls": [], "results": [], "returned": [], "nested_args": []}
 
         def evaluator(variables, context):
+            fail_all = self.all_fail_at is not None and len(log["calls"]) == self.all_fail_at
             log["calls"].append((variables, context))
             v = vals(variables)
             n = v.shape[0]
             out = np.empty((n, 1 + self.C), dtype=object)
             for i in range(n):
                 s = ssum([v[i, j] * (j + 1) for j in range(N)])
-                out[i, 0] = s
+                out[i, 0] = SR(s.v, True) if fail_all else s
                 for c in range(self.C):
                     out[i, 1 + c] = s * (c + 2)
             return EvaluatorResult(objectives=env.arr(out[:, :1]), constraints=env.arr(out[:, 1:]) if self.C else None)
@@ -111,7 +114,7 @@ class FixedCase(Case):
                     x = env.const(self.points[pt])
                 log["returned"].append(opt.callback(x, return_functions=fn, return_gradients=gr))
 
-        ens.set_script(script, parallel=self.batch)
+        ens.set_script(script, parallel=self.batch, allow_nan=self.all_fail_at is not None)
         ee = EnsembleEvaluator(cfg, None, evaluator, pm)
         opt = EnsembleOptimizer(cfg, ee, pm, signal_evaluation=lambda results=None: log["results"].append(results),
                                 nested_optimizer=nested if self.nested else None)
@@ -263,6 +266,8 @@ def build_cases(tier):
     add(mask=(False, True, False), sampler_map=(0, 1, 0), R=2)
     add(mask=(True, True, False), sampler_map=(1, 0, 0), boundary="mirror_both")
     add(mask=(True, False), batch=True)
+    add(mask=(True, False, True), R=2, C=1, all_fail_at=1)          # all realizations fail in a gradient evaluation
+    add(mask=(False, True), R=2, all_fail_at=2)
     add(mask=(False, True, False), batch=True, R=2)
     for mask in ((True, False, True), (False, True), (True, True, False)):
         add(ScipyStartCase, mask)
